@@ -127,6 +127,23 @@ def run_case(case):
         oid = ('o%d' % (i // 3)) if case.get('repeat_order_ids') else 'o%d' % i      # partial fills share an order id
         txn = q.Transaction(a, qty, t, price, oid, commission=comm)
         ep = eps.setdefault(a, Episode())
+        if qty == 0:
+            # an order sized down to zero shares: nothing is booked, an open position stays as it is
+            if driver == 'position':
+                if pos is not None:
+                    pos.transact(txn)
+            elif driver == 'handler':
+                if a in ph.positions:
+                    ph.transact_position(txn)
+            elif a in port.pos_handler.positions:
+                port.pos_handler.transact_position(txn)
+            cur0 = pos if driver == 'position' else (ph.positions.get(a) if driver == 'handler' else port.pos_handler.positions.get(a))
+            if ep.fills and ep.net != 0:
+                if cur0 is None:
+                    raise Violation('fill %d: a zero-quantity fill removed the open position in %s' % (i, a))
+                _check(cur0, ep, last[a], 'after zero-quantity fill %d (%s)' % (i, driver))
+            cls.add('zero_quantity_fill')
+            continue
         if driver == 'position':
             if pos is None:
                 pos = q.Position.open_from_transaction(txn)
@@ -178,6 +195,19 @@ def run_case(case):
             if tgt is None:
                 continue
             no_dt = bool(case.get('marks_without_dt')) and (i + len(last)) % 2 == 0
+            if case.get('bad_marks') and driver != 'portfolio' and i % 2:
+                # a re-mark stamped before the position's own time is refused - and must change nothing
+                snap = (tgt.current_price, tgt.realised_pnl, tgt.unrealised_pnl, tgt.net_quantity)
+                try:
+                    tgt.update_current_price(mprice * 0.5 + 0.01, t - pd.Timedelta(days=3))
+                except ValueError:
+                    pass
+                else:
+                    raise Violation('a re-mark dated before the position\'s time was accepted')
+                if (tgt.current_price, tgt.realised_pnl, tgt.unrealised_pnl, tgt.net_quantity) != snap:
+                    raise Violation('a refused re-mark changed (price, realised, unrealised, net) %r -> %r' % (
+                        snap, (tgt.current_price, tgt.realised_pnl, tgt.unrealised_pnl, tgt.net_quantity)))
+                cls.add('refused_remark')
             _remark(tgt, eps[ma], last[ma], mprice, None if no_dt else t, 'after fill %d (%s)' % (i, driver))
             if no_dt:
                 cls.add('mark_without_timestamp')
@@ -290,12 +320,14 @@ def ladders(draw):
             qty = mag if draw(st.booleans()) else -mag
         if abs(qty) < 1:          # sub-unit fills are outside the domain (documented as "no quantity" by the code)
             qty = (1.5 if frac else 1) * (1 if qty >= 0 else -1)
+        if driver != 'position' and draw(st.sampled_from([False] * 14 + [True])):
+            qty = 0                 # an order sized down to zero shares
         net[a] += qty
         fills.append([a, qty, draw(gen.prices), draw(comm)])
         if draw(st.sampled_from([True, False, False])):
             marks.append([i, draw(st.integers(0, na - 1)), draw(gen.prices)])
     return {'driver': driver, 'fills': fills, 'marks': marks, 'fractional': frac,
-            'repeat_order_ids': draw(st.sampled_from([False, False, True])),
+            'repeat_order_ids': draw(st.sampled_from([False, False, True])), 'bad_marks': draw(st.booleans()),
             'marks_without_dt': driver != 'portfolio' and draw(st.booleans())}
 
 
